@@ -9,7 +9,7 @@ def sh(*a, **k):
 base = "3a4a916"
 commits = sh("git", "-C", W + "/repo", "log", "--reverse", "--format=%H %s", base + "..HEAD").stdout.strip().splitlines()
 print("repo commits:", len(commits))
-for line in commits:
+for line in ([] if len(sys.argv) > 2 and sys.argv[2] == "nopick" else commits):
     h, subj = line.split(" ", 1)
     r = sh("git", "-C", "/repo", "cherry-pick", h)
     if r.returncode != 0:
